@@ -179,12 +179,16 @@ class _Runner(_Processor):
 
     async def finish_gracefully(self, timeout: float) -> None:
         logger.debug("Gracefully finishing runner.")
+        # the graceful period bounds the wait after a stop *request*; when consumption merely stopped
+        # because the messages limit was reached, the started executions belong to that limit and
+        # are waited for (a later stop request still cancels them after the graceful period)
+        limit_reached = self.max_tasks_hit and self._wait_for_cancel_task is None
         self.stop_consume_event.set()
         if self._tasks:
             _, pending = await asyncio.wait(
                 self._tasks,
                 return_when=asyncio.ALL_COMPLETED,
-                timeout=timeout,
+                timeout=None if limit_reached else timeout,
             )
             if pending:
                 logger.error("Some tasks timeouted when gracefully finishing runner.")
